@@ -73,7 +73,7 @@ def op_st(draw, kinds):
     kind = draw(st.sampled_from(kinds))
     d = {"kind": kind}
     if kind in ("Ball", "Sphere", "Box"):
-        d["size"] = draw(log10_floats(-3, 1))
+        d["size"] = draw(st.one_of(log10_floats(-3, 1), log10_floats(-3, 1), st.sampled_from([1, 2, 5])))  # integer step sizes are numbers too
     elif kind == "Composite":
         d["parts"] = draw(st.lists(op_st(["Ball", "Sphere", "Box", "Probe", "Composite2", "Rotation", "Translation", "TranslationRotation"]), min_size=1, max_size=3))
     elif kind == "Composite2":
